@@ -181,7 +181,7 @@ def unit_specs(ctx, specs):
 def unit_generated(ctx, kind, n, shard):
     lay = st.one_of(st.just(("1d",)), st.tuples(st.just("B"), st.integers(1, 6)), st.tuples(st.just("B1xB2"), st.integers(1, 3), st.integers(1, 3)),
                     st.tuples(st.just("multi"), st.integers(1, 4), st.integers(1, 4)), st.tuples(st.just("multi3d"), st.integers(1, 2), st.integers(1, 3), st.integers(1, 4)))
-    strat = {"generic": c01.full_rank_G(5, 10), "systematic": c01.parity_P(), "ldpc": c01.ldpc_H()}[kind]
+    strat = {"generic": st.one_of(c01.full_rank_G(5, 10), c01.pivot_G(6, 20)), "systematic": c01.parity_P(), "ldpc": c01.ldpc_H()}[kind]
 
     def f(t):
         x, layout, s = t
